@@ -313,6 +313,9 @@ func isolationMatrix() []isoCell {
 
 	// ---- topics ------------------------------------------------------------------------------------------------
 	add("topic/publish", elemsBundle(&jElem{Topic: &jTopic{Name: "Thing", Type: "publish", Messages: []*jTopicMsg{{Name: "PostThing", Fields: []*jF{fld("thingId", tKeyF("id62"))}}}}}))
+	// names that already end the way the generated type names do
+	add("topic/publish-message-named-message", elemsBundle(&jElem{Topic: &jTopic{Name: "Mail", Type: "publish", Messages: []*jTopicMsg{{Name: "StatusMessage", Fields: []*jF{fld("text", tScalar(kString))}}, {Name: "SendTopic"}}}}))
+	add("service/method-named-request", elemsBundle(&jElem{Service: &jService{Name: "MailService", BasePath: "/iso/v1", Methods: []*jMethod{{Name: "SendRequest", HTTPMethod: "POST", Path: "/send", Req: []*jF{fld("text", tScalar(kString))}, HasRes: true, Res: []*jF{fld("ok", tScalar(kBool))}}, {Name: "GetResponse", HTTPMethod: "GET", Path: "/get", HasRes: true}}}}))
 	add("topic/publish-two", elemsBundle(&jElem{Topic: &jTopic{Name: "Thing", Type: "publish", Messages: []*jTopicMsg{{Name: "PostThing", Fields: []*jF{fld("thingId", tKeyF("id62"))}}, {Name: "DropThing"}}}}))
 	// names with digits and acronyms: what is declared is what every later stage must look for
 	add("topic/publish-unusual-names", elemsBundle(&jElem{Topic: &jTopic{Name: "Auth", Type: "publish", Messages: []*jTopicMsg{{Name: "Verify2fa", Fields: []*jF{fld("code", tScalar(kString))}}, {Name: "Send3dModel"}, {Name: "PushHTTPStatus"}}}}))
